@@ -67,6 +67,21 @@ def _cmp_var(fn, bb, t):
     return None
 
 
+def _fold(op, a, b):
+    """constant folding of the integer operations flag words are built from; X-WithOverflow yields a (value, overflow) pair"""
+    base = op.replace("WithOverflow", "").replace("Unchecked", "")
+    try:
+        r = {"BitOr": lambda: a | b, "BitAnd": lambda: a & b, "BitXor": lambda: a ^ b, "Add": lambda: a + b, "Sub": lambda: a - b,
+             "Mul": lambda: a * b, "Shl": lambda: a << b if 0 <= b < 128 else None, "Shr": lambda: a >> b if 0 <= b < 128 else None,
+             "Eq": lambda: int(a == b), "Ne": lambda: int(a != b), "Lt": lambda: int(a < b), "Le": lambda: int(a <= b),
+             "Gt": lambda: int(a > b), "Ge": lambda: int(a >= b)}[base]()
+    except KeyError:
+        return None
+    if r is None or r < 0:
+        return None
+    return (r,) if op.endswith("WithOverflow") else r
+
+
 def _variant_of(v):
     """variant name of a path-local value known to be a freshly built enum value: 'Ok' / 'Err' / 'Some' / 'None' / 'Continue' / ..."""
     if v is None or v[0] != "val":
@@ -112,6 +127,9 @@ def paths(fn, max_paths=4000, max_loop=1):
             val = None
             if rv["k"] == "use":
                 val = _sym_of_operand(fn, env, rv["op"])
+                op_ = rv["op"]
+                if val is None and op_["k"] != "const" and [q["k"] for q in op_["place"]["p"]] == ["field"] and env.get(op_["place"]["l"], ("",))[0] == "pair":
+                    val = ("const", env[op_["place"]["l"]][1]) if op_["place"]["p"][0].get("i", op_["place"]["p"][0].get("n")) in (0, "0") else None
                 if val is None and rv["op"]["k"] != "const" and not rv["op"]["place"]["p"] and env.get(rv["op"]["place"]["l"], ("",))[0] == "val":
                     val = env[rv["op"]["place"]["l"]]
                 if val is None and rv["op"]["k"] != "const":
@@ -137,6 +155,19 @@ def paths(fn, max_paths=4000, max_loop=1):
                             val = ("const", hit[0])
             elif rv["k"] in ("binop", "cast"):
                 val = ("expr", show(norm(ex.rvalue(rv, (bb, si)))))
+                # constant folding along the path (flag words assembled from per-branch constants)
+                if rv["k"] == "binop":
+                    a_, b_ = _sym_of_operand(fn, env, rv["a"]), _sym_of_operand(fn, env, rv["b"])
+                    if a_ is not None and b_ is not None and a_[0] == "const" and b_[0] == "const":
+                        r_ = _fold(rv["op"], a_[1], b_[1])
+                        if r_ is not None:
+                            val = ("const", r_) if not isinstance(r_, tuple) else ("val", ("agg", "tuple", "", (("0", ("const", "int", r_[0])), ("1", ("const", "bool", 0)))))
+                            if isinstance(r_, tuple):
+                                val = ("pair", r_[0])
+                elif rv["k"] == "cast":
+                    a_ = _sym_of_operand(fn, env, rv["a"] if "a" in rv else rv.get("op"))
+                    if a_ is not None and a_[0] == "const" and 0 <= a_[1] < 128:
+                        val = a_        # (small values survive every integer cast unchanged)
             elif rv["k"] == "agg":
                 # the aggregate built on *this* path (its variant is exact even where the expression engine would join paths)
                 val = ("val", norm(ex.rvalue(rv, (bb, si))))
@@ -165,14 +196,15 @@ def paths(fn, max_paths=4000, max_loop=1):
             elif effects and effects[-1][3]:
                 r = effects[-1][4]
             out.append(dict(decisions=list(decisions), effects=[e[:3] for e in effects], ret=r, end="return", blocks=blocks,
-                            dpos=list(decisions.pos), epos=[e[5] for e in effects]))
+                            dpos=list(decisions.pos), epos=[e[5] for e in effects], econst=[e[6] for e in effects]))
             return
         if t["k"] == "call":
             args = [norm(ex.operand(a, (bb, None))) for a in t["args"]]
             callee = t.get("callee") or "<indirect>"
             to_ret = t["dest"]["l"] == 0 and not t["dest"]["p"]
             callx = norm(ex._call_value(t, (bb, None), 0))
-            effects = effects + [(bb, callee, args, to_ret, callx, len(visited))]
+            csts = tuple((_sym_of_operand(fn, env, a_) or (None, None))[1] if (_sym_of_operand(fn, env, a_) or ("",))[0] == "const" else None for a_ in t["args"])
+            effects = effects + [(bb, callee, args, to_ret, callx, len(visited), csts)]
             if not t["dest"]["p"]:
                 env[t["dest"]["l"]] = ("expr", show(callx))
                 if callee.endswith("FromResidual::from_residual"):
@@ -187,7 +219,7 @@ def paths(fn, max_paths=4000, max_loop=1):
                     lastret = None
             if t.get("target") is None:
                 out.append(dict(decisions=list(decisions), effects=[e[:3] for e in effects], ret=None, end="diverge", blocks=blocks,
-                                dpos=list(decisions.pos), epos=[e[5] for e in effects]))
+                                dpos=list(decisions.pos), epos=[e[5] for e in effects], econst=[e[6] for e in effects]))
                 return
             nxt = [t["target"]]
         elif t["k"] == "switch":
